@@ -26,7 +26,7 @@ from harness.common import Ctx, coq_bool, coq_list, coq_nat, coq_Q, coq_string, 
 NOT_OBS = "level not observed in training dataset"
 
 HEADER = r"""From Coq Require Import String Ascii.
-From Coq Require Import List ZArith QArith Qreduction Qabs Qminmax Bool Arith.
+From Coq Require Import List ZArith QArith Qreduction Qabs Qminmax Qround Bool Arith.
 From Splinkv Require Import Model.EM.
 Import ListNotations.
 Open Scope Q_scope.
@@ -50,14 +50,20 @@ Definition MC n cols ls := {| mc_name := n; mc_cols := cols; mc_levels := ls |}.
 Definition P l cs := {| lam := l; cmps := cs |}.
 Definition FL a b c := {| fix_m := a; fix_u := b; fix_lam := c |}.
 Definition idn (s : string) := s.
-Definition variant_nb (v : nat) : string -> string := match v with O => idn | _ => lower end.
+Definition variant_nb (v : nat) : string -> string := match v with 1%nat => lower | _ => idn end.
 Definition variant_nl (v : nat) : string -> string := match v with 2%nat => idn | _ => lower end.
 Record case := { c_before : model; c_br : list string; c_fl : flags; c_conv : Q; c_maxit : nat;
                  c_data : list drow; c_hist : list params; c_after : model; c_check_stop : bool;
                  c_rows : list (list Z); c_pats : option (list (list Z * positive)) }.
+(* the model's E-step, with each match probability rounded down to a multiple of 2^-80 (keeps
+   the rationals small; the perturbation is < 1e-24, far below the comparison tolerance) *)
+Definition two80 : positive := Pos.pow 2 80.
+Definition round80 (q : Q) : Q := Qred (Qmake (Qfloor (q * inject_Z (Zpos two80))) two80).
+Definition em_step_r (fl : flags) (p : params) (data : list drow) : params :=
+  mstep fl p (map (fun r => (sg r, sw r, round80 (sp r))) (estep p data)).
 Fixpoint steps_ok (fl : flags) (data : list drow) (h : list params) : bool :=
   match h with
-  | p :: ((p' :: _) as t) => params_close (em_step fl p data) p' && steps_ok fl data t
+  | p :: ((p' :: _) as t) => params_close (em_step_r fl p data) p' && steps_ok fl data t
   | _ => true
   end.
 (* every pair but the last must NOT satisfy the stop test; the last pair satisfies it unless
@@ -80,15 +86,15 @@ Definition pats_ok (rows : list (list Z)) (pats : option (list (list Z * positiv
                forallb (fun x => existsb (pat_eqb x) ps) mine && forallb (fun x => existsb (pat_eqb x) mine) ps
   end.
 Definition stages (c : case) : list bool :=
-  let st := start_params lower idn (c_br c) (c_before c) in
+  let st := start_params lower lower (c_br c) (c_before c) in
   [ match c_hist c with h0 :: _ => params_close st h0 | [] => false end;
     steps_ok (c_fl c) (c_data c) (c_hist c);
     if c_check_stop c then stop_ok (c_conv c) (c_maxit c) (c_hist c) else true;
     model_close (finish_session (c_fl c) (c_br c) (last (c_hist c) st) (c_before c)) (c_after c);
     pats_ok (c_rows c) (c_pats c) ].
 Definition run_case (c : case) : bool := forallb (fun b => b) (stages c).
-(* prior-adjustment variants: 0 = level names lower-cased only (code today), 1 = both sides
-   lower-cased, 2 = names compared as they are (specification) *)
+(* prior-adjustment variants: 0 = level names lower-cased only (code before fix 6a6654d9),
+   1 = both sides lower-cased (code today), 2 = names compared as they are (specification) *)
 Definition prior_case (x : nat * model * list string * Q) : bool :=
   match x with (v, m, br, impl) => qclose (adjusted_prior (variant_nl v) (variant_nb v) br m) impl end.
 """
@@ -96,9 +102,10 @@ Definition prior_case (x : nat * model * list string * Q) : bool :=
 # ------------------------------------------------------------------------------------------
 # generator
 # ------------------------------------------------------------------------------------------
-COLS = ["a", "b", "c", "d", "e"]
-DOMS = {"a": ["xa", "xb", "ya", "yb", None], "b": ["p", "q", "r", None, None], "c": ["s", "t", "u"],
-        "d": ["k", "l"], "e": ["ma", "mb", "na", None]}
+# column names "whatever they look like": upper case, SQL keywords, embedded space
+COLS = ["a", "Surname", "c", "group", "first name", "index"]
+DOMS = {"a": ["xa", "xb", "ya", "yb", None], "Surname": ["p", "q", "r", None, None], "c": ["s", "t", "u"],
+        "group": ["k", "l"], "first name": ["ma", "mb", "na", None], "index": ["v", "w", "w", None]}
 
 
 def dec(rng, lo=5, hi=95):
@@ -158,12 +165,13 @@ def gen_comparison(rng, col, other, backend, allow_tf, upper=None):
 def gen_case(rng, backend, level_fix=False):
     lt = rng.choice(["dedupe_only", "dedupe_only", "link_only"])
     n = rng.randint(16, 30)
-    rows = [dict(unique_id=i, **{c: rng.choice(DOMS[c]) for c in COLS}) for i in range(n)]
+    cols = rng.sample(COLS, 5)
+    rows = [dict(unique_id=i, **{c: rng.choice(DOMS[c]) for c in cols}) for i in range(n)]
     tables = [rows] if lt == "dedupe_only" else [rows[: n // 2], rows[n // 2:]]
-    ccols = rng.sample(COLS, rng.choice([3, 4]))
+    ccols = rng.sample(cols, rng.choice([3, 4]))
     comps, truths = [], []
     for c in ccols:
-        other = rng.choice([x for x in COLS if x != c])
+        other = rng.choice([x for x in cols if x != c])
         cd, tr = gen_comparison(rng, c, other, backend, allow_tf=True)
         comps.append(cd)
         truths.append(tr)
@@ -174,15 +182,15 @@ def gen_case(rng, backend, level_fix=False):
     for _ in range(rng.choice([1, 2, 2, 3])):
         r = rng.random()
         if r < 0.55:
-            cols = [rng.choice(COLS)]
+            rcols = [rng.choice(cols)]
         elif r < 0.85:
-            cols = rng.sample(COLS, 2)
+            rcols = rng.sample(cols, 2)
         else:
-            cols = []
-        if cols:
-            rule = " AND ".join(f'l."{c}" = r."{c}"' for c in cols)
+            rcols = []
+        if rcols:
+            rule = " AND ".join(f'l."{c}" = r."{c}"' for c in rcols)
         else:
-            rule = 'substr(l."c",1,1) = substr(r."c",1,1)' if rng.random() < 0.5 else "1=1"
+            rule = "1=1"
         fm, fu = rng.choice([(False, False), (False, True), (False, True), (True, False)])
         sessions.append({"rule": rule, "fix_m": fm, "fix_u": fu, "fix_lam": rng.random() < 0.3,
                          "ewtf": rng.random() < 0.5})
@@ -238,6 +246,10 @@ def pv(raw, read):
     return "NO" if isinstance(raw, str) and raw == NOT_OBS else Fraction(read)
 
 
+def gcol(nm):
+    return "gamma_" + nm.replace(" ", "_")      # Comparison._gamma_column_name
+
+
 def truth_of(case, name):
     return next(t for t in case["truth"] if t["name"] == name)
 
@@ -261,7 +273,7 @@ def read_levels(case, cc, with_tf):
 
 def read_model(case, cms, with_tf):
     return {"lam": Fraction(cms.probability_two_random_records_match),
-            "cmps": [{"name": cc.output_column_name, "cols": [c.input_name for c in cc._input_columns_used_by_case_statement],
+            "cmps": [{"name": cc.output_column_name, "cols": truth_of(case, cc.output_column_name)["cols"],
                       "levels": read_levels(case, cc, with_tf)} for cc in cms.comparisons]}
 
 
@@ -290,9 +302,9 @@ def run_sessions(case, only=None):
         pats = next((r for n, r in tabs if n == "__splink__agreement_pattern_counts"), None)
         mu = [r for n, r in tabs if n == "__splink__m_u_counts"]
         active = [c["name"] for c in hist[0]["cmps"]]
-        rows = [[int(r["gamma_" + nm]) for nm in active] for r in cvv]
+        rows = [[int(r[gcol(nm)]) for nm in active] for r in cvv]
         if s["ewtf"]:
-            data = [([int(p["gamma_" + nm]) for nm in active], Fraction(int(p["agreement_pattern_count"])), []) for p in pats]
+            data = [([int(p[gcol(nm)]) for nm in active], Fraction(int(p["agreement_pattern_count"])), []) for p in pats]
         else:
             data = []
             for r in cvv:
@@ -302,9 +314,9 @@ def run_sessions(case, only=None):
                     a, b = (r.get(f"tf_{tc}_l"), r.get(f"tf_{tc}_r")) if tc else (None, None)
                     a, b = (a if a is not None else b), (b if b is not None else a)
                     tfs.append(None if a is None else Fraction(max(a, b)))
-                data.append(([int(r["gamma_" + nm]) for nm in active], Fraction(1), tfs))
+                data.append(([int(r[gcol(nm)]) for nm in active], Fraction(1), tfs))
         recs.append({"session": si, "before": before, "after": after, "hist": hist, "data": data, "rows": rows,
-                     "pats": None if pats is None else [([int(p["gamma_" + nm]) for nm in active], int(p["agreement_pattern_count"])) for p in pats],
+                     "pats": None if pats is None else [([int(p[gcol(nm)]) for nm in active], int(p["agreement_pattern_count"])) for p in pats],
                      "br_cols": sorted(get_columns_used_from_sql(s["rule"], sqlglot_dialect=dialect)),
                      "mu_counts": mu, "flags": s, "saved": lk.misc.save_model_to_json()})
     return recs
@@ -487,6 +499,8 @@ def oracle_session(case, rec):
             for key, fixed in (("m", s["fix_m"]), ("u", s["fix_u"])):
                 if fixed or any(l["fix" + key] for l in c["levels"]):
                     continue
+                if all(l[key] == "NO" for l in c["levels"]):
+                    continue        # every pair is null on this comparison: nothing observed
                 tot = sum(l[key] for l in c["levels"] if l[key] != "NO")
                 if abs(tot - 1) > Fraction(1, 10**9):
                     fails.append((f"{key} values do not sum to 1", {"iteration": k + 1, "comparison": c["name"], "sum": float(tot)}))
